@@ -59,9 +59,17 @@ field_type('IdManager', 'free_betas_values', 'list[float]')
 field_type('IdManager', 'fixed_betas_values', 'list[float]')
 contract('biogeme.database.Database.get_sample_size', ['C04', 'C02', 'C15'], verify=False, pure=True,
          returns='int', ensures={'t': 'True'}, note='assumed here (contract under C09): a function of the database object (individuals for panel data, rows otherwise)')
-contract('biogeme.database.Database.is_panel', ['C04', 'C02', 'C15'], verify=False, pure=True, reads=['panelColumn'], returns='bool', ensures={'t': 'True'})
+# round 3 (m1): no longer assumed - proved from its one-line body, and it says what `panel` means for the clause on the panel map
+contract('biogeme.database.Database.is_panel', ['C04', 'C02', 'C15'], pure=True, reads=['panelColumn'], returns='bool', modifies=[],
+         ensures={'panel_iff_a_panel_column_is_declared': 'result == (self.panelColumn is not None)'})
+# round 3 (m1): the assumed contract says WHAT is rebuilt (the map is the one of the - sorted - data the database now holds), so that
+# the callers' clause `panel_map_is_the_map_of_the_data` notices a missing rebuild (mutant: `self._prepare_database_for_formula()` deleted)
+PANEL_MAP = "app('panel.map_of', {db}.data, {db}.panelColumn)"
 contract('biogeme.database.Database.build_panel_map', ['C04', 'C02', 'C15'], verify=False, modifies=['*.individualMap', '*.data', '*.fullIndividualMap'],
-         ensures={'t': 'True'}, note='assumed here: rebuilds the individual -> rows map (C09)')
+         ensures={'map_of_the_data': "implies(self.panelColumn is not None, same(self.individualMap, %s))" % PANEL_MAP.format(db='self')},
+         note='assumed here: sorts the rows by individual and rebuilds the individual -> rows map from them (C09 decides what the map is; '
+              'here it is the uninterpreted function panel.map_of(data, panel column))')
+PANEL_CLAUSE = "implies(self.database.is_panel(), same(self.database.individualMap, %s))" % PANEL_MAP.format(db='self.database')
 
 contract(B + 'calculate_likelihood', ['C04', 'C02'],
          types={'x': 'list[float]', 'scaled': 'bool', 'batch': 'float | None'},
@@ -69,7 +77,9 @@ contract(B + 'calculate_likelihood', ['C04', 'C02'],
                  'ValueError': 'batch is None and len(x) != len(self.id_manager.free_betas_values)'},
          modifies=['*.individualMap', '*.data', '*.fullIndividualMap'],
          ensures={'value': "result == ite(scaled, app('engine.calculateLikelihood', self.theC, x, self.id_manager.fixed_betas_values) / float(self.database.get_sample_size()), "
-                           "app('engine.calculateLikelihood', self.theC, x, self.id_manager.fixed_betas_values))"},
+                           "app('engine.calculateLikelihood', self.theC, x, self.id_manager.fixed_betas_values))",
+                  # panel data: the map individual -> rows was rebuilt from the data the database holds now (a stale map gives a wrong sample size)
+                  'panel_map_is_the_map_of_the_data': PANEL_CLAUSE},
          check_safe=False,
          replay="""
 import warnings; warnings.simplefilter('ignore')
